@@ -117,6 +117,8 @@ func childMain(mode, arg string) {
 		fmt.Println("ok " + hex.EncodeToString([]byte(out)))
 	case "stored":
 		childStored(string(in))
+	case "rpcsrv":
+		childRpcSrv()
 	default:
 		os.Exit(3)
 	}
